@@ -58,6 +58,7 @@ def gen_case(rng, tier, index):
     if index % 2 == 0:
         g.one_per_block = True
     g.edits()
+    g.case["seq_passmanager"] = rng.random() < 0.5
     return g.case
 
 
@@ -158,6 +159,21 @@ def run_sequential(case, seed=0):
             steps.append((order[e["b"]], e["i"], eid, e))
     rec = rewrite.Recorder()
     exc = None
+    pm = step = None
+    if case.get("seq_passmanager"):
+        from gtirb_rewriting import Pass, PassManager
+
+        class Step(Pass):
+            cur = None
+
+            def begin_module(self, module, functions_, ctx_):
+                if module is m and self.cur is not None:
+                    eid_, e_, loc_ = self.cur
+                    _register_one(case, eid_, e_, bu, ctx_, rec, functions_,
+                                  loc_)
+        pm = PassManager()
+        step = Step()
+        pm.add(step)
     applied = []      # (eid, edit) in registration order
     unmappable = False
     seq_viol = []
@@ -183,13 +199,19 @@ def run_sequential(case, seed=0):
             if mon is not None:
                 mon.ordering_events = {"apply_begin"}
             try:
-                ctx = RewritingContext(m, functions)
-                _register_one(case, eid, e, bu, ctx, rec, functions, loc)
+                if pm is not None:
+                    # one PassManager object serves every step
+                    step.cur = (eid, e, loc)
+                    go = lambda: pm.run(bu.ir)   # noqa: E731
+                else:
+                    ctx = RewritingContext(m, functions)
+                    _register_one(case, eid, e, bu, ctx, rec, functions, loc)
+                    go = ctx.apply
                 if mon is not None:
                     mon.install_shadow(m)
                     rw._verif.register(mon)
                 try:
-                    ctx.apply()
+                    go()
                 finally:
                     if mon is not None:
                         rw._verif.unregister(mon)
